@@ -46,6 +46,7 @@ import (
 	"github.com/goreleaser/nfpm/v2"
 	"github.com/goreleaser/nfpm/v2/files"
 	"github.com/goreleaser/nfpm/v2/internal/maps"
+	"github.com/goreleaser/nfpm/v2/internal/modtime"
 	"github.com/goreleaser/nfpm/v2/internal/sign"
 	gzip "github.com/klauspost/pgzip"
 )
@@ -292,9 +293,10 @@ func createSignatureBuilder(digest []byte, info *nfpm.Info) func(*tar.Writer) er
 		// fixed at some point we should also upgrade the hash. In this case,
 		// the file name will have to start with .SIGN.RSA256 or .SIGN.RSA512.
 		signHeader := &tar.Header{
-			Name: fmt.Sprintf(".SIGN.RSA.%s", keyname),
-			Mode: 0o600,
-			Size: int64(len(signature)),
+			Name:    fmt.Sprintf(".SIGN.RSA.%s", keyname),
+			Mode:    0o600,
+			Size:    int64(len(signature)),
+			ModTime: modtime.Get(info.MTime),
 		}
 
 		return writeFile(tw, signHeader, bytes.NewReader(signature))
@@ -323,9 +325,10 @@ func createBuilderControl(info *nfpm.Info, size int64, dataDigest []byte) func(t
 		infoContent := infoBuf.String()
 
 		infoHeader := &tar.Header{
-			Name: ".PKGINFO",
-			Mode: 0o600,
-			Size: int64(len(infoContent)),
+			Name:    ".PKGINFO",
+			Mode:    0o600,
+			Size:    int64(len(infoContent)),
+			ModTime: modtime.Get(info.MTime),
 		}
 
 		if err := writeFile(tw, infoHeader, strings.NewReader(infoContent)); err != nil {
